@@ -751,6 +751,8 @@ Definition C18_holds (op impl : sval) : holds :=
             if negb (sval_eqb c (sbool true)) then HFail [SY "history_dependent"; tname p] else
             if match assoc "backing" impl with Some b => negb (sval_eqb b (sbool true)) | None => false end
             then HFail [SY "writes_outside_packet"; tname p] else
+            if match assoc "stable" impl with Some b => negb (sval_eqb b (sbool true)) | None => false end
+            then HFail [SY "returned_bytes_changed_by_a_later_call"; tname p] else
             match p_packet f with
             | Some pf => if packet_eqb pf p then HPass else HFail [SY "packet_modified"; tname p]
             | None => HFail [SY "malformed_observation"]
@@ -785,6 +787,8 @@ Definition dhist_holds (op impl : sval) : holds :=
               match dhist_run ps ops, assoc "results" impl, assoc "final" impl, assoc "input" impl with
               | Some (rs, pf), Some (SL irs), Some ifin, Some inp =>
                   if negb (sval_eqb inp (sbool true)) then HFail [SY "input_buffer_modified"]
+                  else if match assoc "stable" impl with Some b => negb (sval_eqb b (sbool true)) | None => false end
+                       then HFail [SY "returned_bytes_changed_by_a_later_call"]
                   else if negb (sval_eqb (SL rs) (SL irs)) then HFail (SY "result_depends_on_history" :: first_diff ops rs irs)
                   else if negb (sval_eqb (SL (map s_packet pf)) ifin) then HFail [SY "decoded_packet_modified"]
                   else HPass
@@ -853,6 +857,9 @@ Definition prop_holds0 (prop : string) (op impl meta : sval) : holds :=
 Definition prop_holds (prop : string) (op impl meta : sval) : holds :=
   let o := op_name op in
   if String.eqb prop "C01" then prop_holds0 prop op impl meta
+  else if String.eqb o "enc"
+          && match assoc "marshalto" impl, assoc "marshal" impl with Some a, Some b => negb (sval_eqb a b) | _, _ => false end
+       then HFail [SY "marshalto_differs_from_marshal"]
   else if String.eqb o "dhist" then dhist_holds op impl
   else if String.eqb o "scribble" then scribble_holds op impl
   else if String.eqb o "dec2" then dec2_holds op impl
